@@ -216,6 +216,7 @@ def guard_rules(repo, rep):
     if n < 3:
         rep.undecided('R-GUARD', 'R-GUARD::geodepy/convert.py::geo2grid::tests', where(f, f.node), 'fewer than three raising input tests were met (%d)' % n)
     common.isg_zone_rule(repo, rep, 'geo2grid', ps[2], True, {ps[0]: Rat.sym('lat'), ps[1]: Rat.sym('lon')})
+    common.zone_table_rule(repo, rep)
 
 
 def units_rules(repo, rep):
@@ -239,6 +240,7 @@ def run(repo, rep):
         zone_rules(repo, rep, ctx)
     units_rules(repo, rep)
     guard_rules(repo, rep)
+    common.tm_division_rules(repo, rep)
     tr = ThreadRule(repo, rep)
     f = repo.func('geodepy.convert', 'geo2grid')
     tr.check_const(f)
